@@ -371,7 +371,8 @@ def run(tier, seed, replay):
         outs = []
         for _ in range(6):
             rc, o, e = run_rf(exe, margs + ["lib.rs"], rd, env_for("plain"))
-            outs.append((rc, ANSI.sub("", o)))
+            # -v prints elapsed times ("Spent 0.001 secs in the parsing phase, ..."): not part of the result
+            outs.append((rc, re.sub(r"Spent [0-9.]+ secs in the parsing phase, and [0-9.]+ secs in the formatting phase", "Spent T secs", ANSI.sub("", o))))
             rep_runs += 1
         if len(set(outs)) != 1:
             k = next(i for i, x in enumerate(outs) if x != outs[0])
